@@ -115,6 +115,8 @@ def discharge(rec, plan=None, seed=0, budget_scale=1.0):
     """rec: dict with 'smt2' = {'full': text, 'coi': text or None, 'use': text or None}.  Returns result dict."""
     if rec.get("kind") in ("canary", "cover"):
         plan = [("full", "z3", 3), ("full", "nra", 6)]   # reachability probes, not proof obligations: short budget
+        if rec.get("meta", {}).get("canary") == "strict":
+            plan = [("full", "z3", 20), ("full", "z3old", 30)]
     plan = plan or rec.get("plan") or DEFAULT_PLAN
     t0 = time.time()
     attempts = []
